@@ -10,8 +10,9 @@
 
    Observations: the bindings of all hooks, each with the path the implementation registered
    for it (what Kubernetes is told to call); the request (path, body); what the hook process
-   did if one ran (exit status, response file); the HTTP answer; which hook process ran and
-   for which binding.  Only data types are shared with the model. *)
+   did if one ran (exit status, response file, and the other files a hook hands back:
+   Kubernetes operations, metrics, conversion response); the HTTP answer; which hook process
+   ran and for which binding.  Only data types are shared with the model. *)
 From Verif Require Import Common C14_Model.
 
 (* a binding as the implementation registered it: C14_Model.reg = (hook, type, name, path) *)
@@ -46,17 +47,29 @@ Definition valid_response (f : rfile) : option (bool * N * list N * N) :=
   | _ => None
   end.
 
+(* "hook failure ... or any internal error yields a denial": the run of a hook does not end
+   with the exit of its process — shell-operator then has to process what the hook handed
+   back.  The run completed without error when none of these outputs was refused: the
+   Kubernetes operations could be parsed and the API server accepted every one of them, the
+   metric operations could be parsed and were all valid, the conversion response (if any)
+   could be decoded.  Otherwise the run failed inside shell-operator ("Hook failed"). *)
+Definition run_completed (r : run) : bool :=
+  match kpatch r with KUnparsable | KOps _ true => false | KEmpty | KOps _ false => true end
+  && match metrics r with MUnparsable | MOps _ true => false | MEmpty | MOps _ false => true end
+  && match conv r with CMalformed => false | CEmpty | COk => true end.
+
 Definition allowed_of (a : answer) : bool :=
   match a with AReview r => a_allowed r | AStatus _ => false end.
 
 (* "allowed=true only when the hook bound to the requested path ran, exited zero and wrote a
-   valid response with allowed true" *)
+   valid response with allowed true; hook failure ... or any internal error yields a denial" *)
 Definition fail_closed (regs : list reg) (path : bytes) (b : body) (r : run) (a : answer) (who : ran) : bool :=
   if allowed_of a then
     match b with BReview _ => true | _ => false end
     && existsb (ran_is who) (registrars regs path)
     && exit_zero r
     && match valid_response (file r) with Some (true, _, _, _) => true | _ => false end
+    && run_completed r
   else true.
 
 (* a body that is not an AdmissionReview with a request is refused by HTTP status, never
@@ -76,11 +89,12 @@ Definition uid_echo (b : body) (a : answer) : bool :=
   | _, _ => true
   end.
 
-(* the verdict of the hook that registered the path is relayed *)
+(* the verdict of the hook that registered the path is relayed (the verdict of a run that
+   failed is not: that is a denial, see fail_closed) *)
 Definition relay (regs : list reg) (path : bytes) (r : run) (a : answer) (who : ran) : bool :=
   match a, valid_response (file r) with
   | AReview rv, Some (al, m, w, p) =>
-    if exit_zero r && existsb (ran_is who) (registrars regs path) then
+    if exit_zero r && run_completed r && existsb (ran_is who) (registrars regs path) then
       Bool.eqb (a_allowed rv) al
       && list_eqb N.eqb (a_warnings rv) w
       && (if al then true else if N.eqb m 0 then true
